@@ -1,6 +1,7 @@
 """C17 Metrics are classified and evaluated according to the documented contract - structural clauses."""
 import ast
 
+from ..rules.match import FnText
 from ..model import AnalysisError, norm
 from ..cfg import build_cfg
 from ..astutil import short, call_name
@@ -41,13 +42,13 @@ def predicates(ctx, rule='A17t'):
            'a metric can be a constraint iff it has a direction AND a reference value',
            f'truth table over {names}: {sorted(k for k, v in tt.items() if v)} true')
     pn = ctx.fn(f'{GP}._get_permanent_nodes')
-    t = ' '.join(norm(s) for s in pn.body)
+    t = FnText(ctx, pn)
     ok = 'self.graph.get_confirmed_graph()' in t and 'set(confirmed_initial_graph.graph.nodes)' in t
     ctx.ob(rule, fkey(pn, rule, 'permanent-is-confirmed-initial-graph'), ok, pn.where,
            'permanent nodes are exactly the nodes of the confirmed part of the initial graph (present in every '
            'architecture)', t[:120])
     cg = ctx.fn(f'{DSG}.get_confirmed_graph')
-    t = ' '.join(norm(s) for s in cg.body)
+    t = FnText(ctx, cg)
     ok = 'get_non_confirmed_nodes(self._graph, start_nodes)' in t and 'removed_nodes=non_confirmed_nodes' in t
     ctx.ob(rule, fkey(cg, rule, 'confirmed-graph-removes-non-confirmed'), ok, cg.where,
            'the confirmed graph is the graph minus every node not reachable from the start nodes without passing '
@@ -57,7 +58,7 @@ def predicates(ctx, rule='A17t'):
 def typing_rules(ctx, rule='A17c'):
     fn = ctx.fn(f'{GP}._get_metrics')
     cfg = build_cfg(fn)
-    txt = ' '.join(norm(s) for s in fn.body)
+    txt = FnText(ctx, fn)
     ok = 'is_none = isinstance(metric_node.type, MetricType) and metric_node.type == MetricType.NONE' in txt
     ctx.ob(rule, fkey(fn, rule, 'declared-none-detected'), ok, fn.where,
            'a metric whose declared type is MetricType.NONE is recognised', '')
@@ -85,7 +86,7 @@ def typing_rules(ctx, rule='A17c'):
     ctx.ob(rule, fkey(fn, rule, 'iterates-sorted-metric-nodes'), ok, fn.where,
            'metrics are classified in the order of the name-sorted metric-node list', '')
     mn = ctx.prog.cls(GP).methods['metric_nodes']
-    t = ' '.join(norm(s) for s in mn.body)
+    t = FnText(ctx, mn)
     ok = 'sorted(self.graph.get_nodes_by_type(MetricNode), key=lambda n: n.name)' in t
     ctx.ob(rule, fkey(mn, rule, 'metric-nodes-sorted-by-name'), ok, mn.where,
            'the metric nodes are sorted by name (stable output order)', t[:100])
@@ -140,14 +141,14 @@ def typing_rules(ctx, rule='A17c'):
     # definitions
     for cls_name, dirs in (('Objective', ('Direction.MIN', 'Direction.MAX')), ('Constraint', ('Direction.LTE', 'Direction.GTE'))):
         f = ctx.fn(f'adsg_core.optimization.dv_output_defs:{cls_name}.from_metric_node')
-        t = ' '.join(norm(s) for s in f.body)
+        t = FnText(ctx, f)
         ok = f'direction = {dirs[0]} if metric_node.dir <= 0 else {dirs[1]}' in t and \
             'if metric_node.dir is None' in t
         ctx.ob(rule, fkey(f, rule, 'direction-mapping'), ok, f.where,
                f'{cls_name}: direction <= 0 maps to {dirs[0]}, > 0 to {dirs[1]}; a metric without direction is '
                f'rejected', '')
     f = ctx.fn('adsg_core.optimization.dv_output_defs:Constraint.from_metric_node')
-    t = ' '.join(norm(s) for s in f.body)
+    t = FnText(ctx, f)
     ok = 'if metric_node.ref is None' in t and 'cls(name, metric_node.ref, direction, node=metric_node)' in t
     ctx.ob(rule, fkey(f, rule, 'constraint-carries-reference'), ok, f.where,
            'a constraint carries the reference value of its metric node (and requires one)', '')
@@ -203,7 +204,7 @@ def evaluate_rules(ctx, rule='A17e'):
     gp = ctx.prog.cls(GP)
     for nm, idx in (('objectives', 0), ('constraints', 1)):
         m = gp.methods[nm]
-        t = ' '.join(norm(s) for s in m.body)
+        t = FnText(ctx, m)
         ctx.ob(rule, fkey(m, rule, f'{nm}-from-categorisation'), f'self._categorized_metrics[{idx}]' in t, m.where,
                f'the {nm} are element {idx} of the categorised metrics', t[:80])
 
@@ -251,4 +252,7 @@ VARIANTS = [
     V('twin-objective-predicate-reordered', 'optimization/graph_processor.py',
       [("        return metric_node.dir is not None and metric_node in permanent_nodes", "        return metric_node in permanent_nodes and not (not (metric_node.dir is not None))")],
       expect='silent'),
+    V('twin-rename-locals-in-get-metrics', 'optimization/graph_processor.py',
+      [("                obj = MetricType.OBJECTIVE if self._can_be_objective(metric_node, permanent_nodes) else MetricType.NONE\n                constr = MetricType.CONSTRAINT if self._can_be_constraint(metric_node) else MetricType.NONE\n\n                metric_type = obj | constr",
+        "                as_obj = MetricType.OBJECTIVE if self._can_be_objective(metric_node, permanent_nodes) else MetricType.NONE\n                as_con = MetricType.CONSTRAINT if self._can_be_constraint(metric_node) else MetricType.NONE\n\n                metric_type = as_obj | as_con")], expect='silent'),
 ]
